@@ -246,6 +246,8 @@ def match_known(v, known):
             continue
         if m.get('rule') and m['rule'] != pay.get('rule'):
             continue
+        if m.get('key') and m['key'] != pay.get('key'):
+            continue
         return k
     return None
 
